@@ -21,7 +21,31 @@ HIDDEN = [b'.hidden', b'.2024-01-02.1', b'..x', b'.attic', b'.r']
 SIG_RESPELLED = 'B-lists-lock-target-spelled-differently'
 LOCKS = ['absent', 'target', 'target', 'target', 'canonical', 'target_nonl', 'target_two', 'target_nul', 'target_nul_after', 'stale',
          'respelled', 'respelled2', 'empty', 'nl_only', 'dirlock', 'nameonly']
+# more shapes of the lock file (drawn with a smaller probability): CRLF line end, more than one 4096-byte block with and
+# without a newline, the first line cut one byte short (a PREFIX of the target's path, possibly another invocation's path)
+LOCKS_B = ['target_crlf', 'target_long', 'long_nonl', 'target_cut', 'target_long2']
 SPELL = ['abs', 'abs', 'slash', 'dslash', 'rel', 'dotrel']
+
+
+# ---- boundary classes (sizes / shapes a fixed buffer, a narrowed integer, a growth step or an off-by-one trips over) ----
+# suffix values next to the integer limits (robsd-ls never parses them: strcmp only - the point is that nothing does)
+BIG_SUFFIX = [0, 1, 2 ** 31 - 1, 2 ** 31, 2 ** 32 - 1, 2 ** 32, 2 ** 63 - 1]
+# names byte-adjacent to a date / to the names the code treats specially; lengths 1 and NAME_MAX
+ADJACENT = [b'2024-01-01 ', b'2024-01-010', b'2024-01-01.', b'2024-01-01-', b'2024-01-01..', b'2024-01-0',
+            b'ATTIC', b'Attic', b'attic ', b'attic.1', b'atticc', b'TMP', b'tmp', b'2', b'x']
+NAME_MAX = iv_common.NAME_MAX
+LONG_NAMES = [b'2024-01-02.' + b'1' * (NAME_MAX - 11), b'2024-01-02.' + b'1' * (NAME_MAX - 12), b'n' * NAME_MAX,
+              b'n' * (NAME_MAX - 1), b'.' + b'h' * (NAME_MAX - 1)]
+# numbers of ACCEPTED directories around the growth steps of VECTOR(struct invocation_entry) (16, doubling)
+COUNTS = [15, 16, 17, 31, 32, 33, 63, 64, 65, 255, 256]
+# invocations of ONE day: one/two/three/four digits
+PER_DAY = [9, 10, 11, 99, 100, 101, 999, 1000]
+# length of robsddir as spelled.  PATH_MAX is 4096 with the NUL: "pmax" = the longest root for which root + "/" + the
+# longest name of the case still is a path the kernel accepts (4095 bytes); one byte more and neither opendir nor the
+# harness could name the entry, and snprintf into char path[PATH_MAX] truncates - LsDefs.mkpath has no truncation
+# (TRUSTED: paths shorter than PATH_MAX), so the class is capped exactly there.
+ROOT_LENS = [254, 255, 256, 1023, 1024, 1025, 'pmax']
+PATH_MAX = iv_common.PATH_MAX
 
 
 def gen_name(rng):
@@ -30,11 +54,17 @@ def gen_name(rng):
         d = rng.choice(DAYS[:rng.choice([1, 2, 4])])
         if rng.random() < 0.2:
             return d
-        return d + b'.' + str(rng.choice([1, 2, 3, 9, 10, 11, 12, 19, 20, 100])).encode()
+        if rng.random() < 0.06:
+            return d + b'.' + str(rng.choice(BIG_SUFFIX)).encode()
+        return d + b'.' + str(rng.choice([1, 2, 3, 9, 10, 11, 12, 19, 20, 99, 100, 101, 999, 1000])).encode()
     if k < 0.72:
         return b'attic'
     if k < 0.84:
         return rng.choice(HIDDEN)
+    if k < 0.88:
+        return rng.choice(ADJACENT)
+    if k < 0.90:
+        return rng.choice(LONG_NAMES)
     return rng.choice(MISC)
 
 
@@ -55,27 +85,94 @@ def gen_kind(rng, name):
     return 'unknowndir'
 
 
+def expand(case):
+    """entries of a case: the explicit ones plus the compact form `bulk` = [[prefix hex, lo, hi, kind], ...] standing for
+    prefix + decimal(k), lo <= k <= hi (keeps corpus files with hundreds of invocations small)"""
+    ents = [list(e) for e in case['entries']]
+    seen = {e[0] for e in ents}
+    for ph, lo, hi, kind in case.get('bulk') or []:
+        for k in range(lo, hi + 1):
+            h = ph + str(k).encode().hex()
+            if h not in seen:
+                seen.add(h)
+                ents.append([h, kind])
+    return ents
+
+
+def gen_many(rng):
+    """`bulk` descriptions for a root with exactly n accepted directories (n around a growth step of the vector) or a day
+    with 9..1000 invocations: consecutive numbers of one or more days, so that the suffixes cross the 9/10, 99/100 and
+    999/1000 boundaries and every shorter name is a prefix of a longer one"""
+    r = rng.random()
+    if r < 0.72:
+        n = rng.choice(COUNTS)
+        days = rng.choice([1, 1, 2, 4])
+    else:
+        # a day with 999/1000 invocations costs the extracted model and oracle (quadratic list programs) ~5 s: drawn
+        # rarely here, once in corpus/C15/b15_per_day_1000.json
+        n = rng.choice(PER_DAY[:6] if r < 0.985 else PER_DAY[6:])
+        days = 1
+    bulk = []
+    left = n
+    for i, d in enumerate(DAYS[:days]):
+        take = left if i == days - 1 else rng.randint(0, left)
+        if take:
+            lo = rng.choice([1, 1, 1, 0, 2])
+            bulk.append([(d + b'.').hex(), lo, lo + take - 1, 'dir'])
+        left -= take
+    return bulk, n
+
+
 def gen_case(rng):
     n = rng.choice([0, 1, 2, 3, 4, 6, 9, 14, 22])
     ents = {}
+    bulk = None
+    if rng.random() < 0.05:
+        bulk, _ = gen_many(rng)
+        n = rng.choice([0, 1, 3, 6])        # plus a few entries that are not listed
+        taken = {bytes.fromhex(e[0]) for e in expand({'entries': [], 'bulk': bulk})}
+    else:
+        taken = set()
     for _ in range(n):
         nm = gen_name(rng)
-        if nm not in ents:
-            ents[nm] = gen_kind(rng, nm)
+        if nm not in ents and nm not in taken:
+            k = gen_kind(rng, nm)
+            # in a bulk case the number of ACCEPTED directories is the class: the extras are of kinds that are not listed
+            ents[nm] = k if not bulk or k != 'dir' else 'file'
     if rng.random() < 0.04:
         # a file system that never fills in d_type (C15_dt_unknown_lists_nothing)
         ents = {k: ('unknowndir' if v == 'dir' else v) for k, v in ents.items()}
-    names = list(ents)
-    lock = rng.choice(LOCKS)
+    names = list(ents) + (sorted(taken)[:3] + sorted(taken)[-3:] if bulk else [])
+    kinds = dict(ents)
+    kinds.update({x: 'dir' for x in taken})
+    lock = rng.choice(LOCKS + (LOCKS_B if rng.random() < 0.35 else []))
     target = None
-    if names and lock.startswith('target') or lock in ('respelled', 'respelled2', 'nameonly', 'canonical'):
+    if names and lock.startswith('target') or lock in ('respelled', 'respelled2', 'nameonly', 'canonical', 'long_nonl'):
         # mostly a listed directory, sometimes anything
-        dirs = [x for x in names if ents[x] == 'dir' and not x.startswith(b'.') and x != b'attic']
+        dirs = [x for x in names if kinds[x] == 'dir' and not x.startswith(b'.') and x != b'attic']
         pool = dirs if (dirs and rng.random() < 0.8) else names
+        # a target that is a proper prefix of another name, when there is one (DATE.1 with DATE.10 present)
+        pre = [x for x in pool if any(y != x and y.startswith(x) for y in kinds)]
+        if pre and rng.random() < 0.5:
+            pool = pre
         target = rng.choice(pool) if pool else b'2024-01-02.1'
-    return {'mode': rng.choice(iv_common.MODES), 'spell': rng.choice(SPELL),
+    case = {'mode': rng.choice(iv_common.MODES), 'spell': rng.choice(SPELL),
             'entries': [[k.hex(), v] for k, v in ents.items()],
             'lock': lock, 'target': None if target is None else target.hex()}
+    if bulk:
+        case['bulk'] = bulk
+    if rng.random() < 0.06 and len(taken) <= 70:
+        case['rootlen'] = rng.choice(ROOT_LENS)
+        if case['rootlen'] == 'pmax' or case['spell'] in ('rel', 'dotrel'):
+            # a relative spelling adds the working directory on top: near PATH_MAX only absolute spellings are usable
+            case['spell'] = rng.choice(['abs', 'abs', 'slash', 'dslash']) if case['rootlen'] == 'pmax' else case['spell']
+        if case['rootlen'] == 'pmax' and rng.random() < 0.6 and target is not None:
+            case['lock'] = rng.choice(['target', 'target', 'target_long', 'canonical'])
+            dirs = [x for x in kinds if kinds[x] == 'dir' and not x.startswith(b'.') and x != b'attic']
+            if dirs and rng.random() < 0.7:
+                # the longest name: <root>/<name> is PATH_MAX - 1 bytes, the lock file `target` exactly one 4096-byte block
+                case['target'] = max(dirs, key=len).hex()
+    return case
 
 
 def lock_bytes(case, rootb, realroot=None):
@@ -97,51 +194,73 @@ def lock_bytes(case, rootb, realroot=None):
         'empty': b'',
         'nl_only': b'\n' + p + b'\n',
         'nameonly': t + b'\n',
+        'target_crlf': p + b'\r\n',
+        'target_long': p + b'\n' + b'x' * 5000 + b'\n',          # the file does not fit one 4096-byte read
+        'target_long2': p + b'\n' + (b'y' * 63 + b'\n') * 1100,  # > 65536 bytes
+        'long_nonl': p + b' ' + b'x' * 5000,                      # no newline anywhere: "line not found"
+        'target_cut': p[:-1] + b'\n',                            # a proper prefix of the target's path
     }[k]
 
 
+def spelled_root(case, d, ents):
+    """-> (real path of the root, robsddir as spelled).  `rootlen` = the exact length of the spelled string (padding
+    directories of up to NAME_MAX bytes in between); 'pmax' = the longest one for which <root>/<longest name> and
+    <root>/.running still are paths of PATH_MAX - 1 bytes"""
+    sp = case['spell']
+    pre = {'abs': d + '/', 'slash': d + '/', 'dslash': d + '//', 'rel': '', 'dotrel': './'}[sp]
+    post = '/' if sp == 'slash' else ''
+    L = case.get('rootlen')
+    if not L:
+        mid = 'r'
+    else:
+        if L == 'pmax':
+            longest = max([len(bytes.fromhex(nh)) for nh, kind in ents] + [len(b'.running')])
+            L = PATH_MAX - 1 - 1 - longest
+        need = L - len(pre) - len(post)
+        if need < 1:
+            raise common.BuildFailure('C15 case: rootlen %r is shorter than the scratch directory allows' % L)
+        mid = '/'.join(iv_common.root_components(need))
+    return os.path.join(d, mid), pre + mid + post
+
+
 def make_fixture(case, d):
-    """creates d/r (the root), d/src, d/conf; returns (cwd, root string as spelled, root real path)"""
+    """creates the root, d/src, d/conf; returns (root string as spelled, root real path, lock bytes, DT_UNKNOWN names)"""
     os.makedirs(d)
-    root = os.path.join(d, 'r')
-    os.mkdir(root)
+    ents = expand(case)
+    root, rs = spelled_root(case, d, ents)
+    os.makedirs(root)
     os.mkdir(os.path.join(d, 'src'))
     os.mkdir(os.path.join(d, 'outside'))
     rb = root.encode()
     first_dir = None
-    for nh, kind in case['entries']:
-        nm = bytes.fromhex(nh)
-        p = os.path.join(rb, nm)
-        if kind in ('dir', 'unknowndir'):
-            os.mkdir(p)
-            if first_dir is None:
-                first_dir = nm
-        elif kind == 'file':
-            open(p, 'wb').write(b'x\n')
-        elif kind == 'symdir':
-            os.symlink(first_dir if first_dir is not None else os.path.join(d, 'outside').encode(), p)
-        elif kind == 'symdangling':
-            os.symlink(b'nowhere', p)
-        elif kind == 'fifo':
-            os.mkfifo(p)
-    sp = case['spell']
-    if sp == 'abs':
-        rs = root
-    elif sp == 'slash':
-        rs = root + '/'
-    elif sp == 'dslash':
-        rs = d + '//r'
-    elif sp == 'rel':
-        rs = 'r'
-    else:
-        rs = './r'
-    lb = lock_bytes(case, rs.encode(), os.path.realpath(root).encode())
-    if case['lock'] == 'dirlock':
-        os.mkdir(os.path.join(root, '.running'))
-    elif lb is not None:
-        open(os.path.join(root, '.running'), 'wb').write(lb)
+    # everything below the root is made relative to a descriptor of it: <root>/<name> may be PATH_MAX - 1 bytes long
+    fd = os.open(root, os.O_RDONLY | os.O_DIRECTORY)
+    try:
+        for nh, kind in ents:
+            nm = bytes.fromhex(nh)
+            if kind in ('dir', 'unknowndir'):
+                os.mkdir(nm, dir_fd=fd)
+                if first_dir is None:
+                    first_dir = nm
+            elif kind == 'file':
+                os.close(os.open(nm, os.O_WRONLY | os.O_CREAT | os.O_EXCL, 0o644, dir_fd=fd))
+            elif kind == 'symdir':
+                os.symlink(first_dir if first_dir is not None else os.path.join(d, 'outside').encode(), nm, dir_fd=fd)
+            elif kind == 'symdangling':
+                os.symlink(b'nowhere', nm, dir_fd=fd)
+            elif kind == 'fifo':
+                os.mkfifo(nm, dir_fd=fd)
+        lb = lock_bytes(case, rs.encode(), os.path.realpath(root).encode())
+        if case['lock'] == 'dirlock':
+            os.mkdir('.running', dir_fd=fd)
+        elif lb is not None:
+            f = os.open('.running', os.O_WRONLY | os.O_CREAT | os.O_EXCL, 0o644, dir_fd=fd)
+            os.write(f, lb)
+            os.close(f)
+    finally:
+        os.close(fd)
     iv_common.write_conf(os.path.join(d, 'conf'), case['mode'], rs, os.path.join(d, 'src'))
-    unknown = [bytes.fromhex(nh) for nh, kind in case['entries'] if kind == 'unknowndir']
+    unknown = [bytes.fromhex(nh) for nh, kind in ents if kind == 'unknowndir']
     if unknown:
         open(os.path.join(d, 'unknown'), 'wb').write(b'\n'.join(unknown) + b'\n')
     return rs, rb, lb, unknown
@@ -204,7 +323,7 @@ def outside_dt_unknown(c):
     directory is therefore outside the statement: it is recognised here, on the case, counted, and not judged by
     the oracle.  What robsd-ls does then is a theorem about the model (C15_dt_unknown_lists_nothing) and the
     model-vs-implementation comparison still runs; write-up findings/C15_dt_unknown.md."""
-    return any(kind == 'unknowndir' for nh, kind in c['entries'])
+    return any(kind == 'unknowndir' for nh, kind in expand(c))
 
 
 def classify(fx, B, rc, out, bd, bd_literal=None):
@@ -237,6 +356,56 @@ def classify(fx, B, rc, out, bd, bd_literal=None):
     return 'not-strictly-descending'
 
 
+def classes_of(c, fx):
+    """the boundary classes a case belongs to (printed into the input distribution as `class: ...`)"""
+    out = []
+    root = fx['root']
+    acc = [n for n, t in fx['ents'] if t == 'D' and not n.startswith(b'.') and root + b'/' + n != root + b'/attic']
+    names = [n for n, t in fx['ents']]
+    if len(acc) in COUNTS or len(acc) in (0, 1):
+        out.append('listed=%d' % len(acc))
+    days = {}
+    for n in acc:
+        if len(n) > 11 and n[10:11] == b'.' and n[11:].isdigit():
+            days.setdefault(n[:10], []).append(int(n[11:]))
+    for d, ks in days.items():
+        if len(ks) in PER_DAY:
+            out.append('per-day=%d' % len(ks))
+        if max(ks) > len(ks) + min(ks) - 1:
+            out.append('day with a gap in the sequence')
+        for v in BIG_SUFFIX:
+            if v in ks and v != 1:
+                out.append('suffix=%d' % v)
+    for n in names:
+        if len(n) in (1, NAME_MAX - 1, NAME_MAX):
+            out.append('name-len=%d' % len(n))
+        if n in ADJACENT:
+            out.append('name byte-adjacent to a date / attic / tmp')
+    sa = sorted(acc)
+    if any(y.startswith(x) for x, y in zip(sa, sa[1:])):
+        out.append('listed names that are prefixes of each other')
+    lb = fx['lock']
+    if lb is not None:
+        c0 = lb.split(b'\x00', 1)[0]
+        if b'\n' in c0:
+            first = c0.split(b'\n', 1)[0]
+            if any((root + b'/' + n).startswith(first) and root + b'/' + n != first for n in acc) and first.startswith(root + b'/'):
+                out.append('lock line is a proper prefix of a listed path')
+        if len(lb) == PATH_MAX:
+            out.append('lock file of exactly 4096 bytes (newline is the last byte of the block)')
+        elif len(lb) > 65536:
+            out.append('lock file > 65536 bytes')
+        elif len(lb) > PATH_MAX:
+            out.append('lock file > 4096 bytes')
+        if c['lock'] in LOCKS_B:
+            out.append('lock-shape=' + c['lock'])
+    if len(root) in (1, 254, 255, 256, 1023, 1024, 1025):
+        out.append('root-len=%d' % len(root))
+    if c.get('rootlen') == 'pmax':
+        out.append('root-len=pmax (root + "/" + longest name = PATH_MAX - 1 bytes)')
+    return sorted(set(out))
+
+
 def evaluate(ctx, cases, res, impl=None):
     impl = impl or ctx.build_impl()
     drv = iv_common.build_iv_driver(ctx)
@@ -267,7 +436,9 @@ def evaluate(ctx, cases, res, impl=None):
         res.count('mode=' + c['mode'])
         res.count('lock=' + c['lock'])
         res.count('spell=' + c['spell'])
-        res.count('entries=%d' % len(fx['ents']))
+        res.count('entries=%s' % (len(fx['ents']) if len(fx['ents']) < 23 else '23+'))
+        for cl in classes_of(c, fx):
+            res.count('class: ' + cl)
         for n, t in fx['ents']:
             res.count('dtype=' + t)
         listed_plain = 0
@@ -275,6 +446,9 @@ def evaluate(ctx, cases, res, impl=None):
             m, ok = ans[k], ans[k + 1]
             k += 2
             res.evaluations += 1
+            if m.startswith('EXN') or ok.startswith('EXN') or ok == 'BAD':
+                res.tie_errors.append('the extracted model/oracle raised (%s / %s) on %s' % (m[:40], ok[:40], json.dumps(c)[:300]))
+                continue
             impl_s = '%d %s' % (rc, hexs(out))
             if not B:
                 listed_plain = out.count(b'\n')
@@ -298,7 +472,8 @@ def evaluate(ctx, cases, res, impl=None):
                     'impl': impl_s, 'stderr': err[-200:].decode('latin1')})
         nonlisted = len(fx['ents']) - listed_plain
         if listed_plain >= 2 and nonlisted >= 1:
-            res.nontrivial.add(hashlib.sha1(repr((c['entries'], c['lock'], c['target'], c['spell'], c['mode'])).encode()).hexdigest())
+            res.nontrivial.add(hashlib.sha1(repr((c['entries'], c.get('bulk'), c.get('rootlen'), c['lock'], c['target'], c['spell'],
+                                                   c['mode'])).encode()).hexdigest())
     return res
 
 
@@ -306,13 +481,20 @@ def run(ctx, n=None):
     res = common.Result()
     res.rule = ('roots generated from the entry kinds the property lists (dated directories incl. several per day and '
                 '.9/.10/.100 suffixes, prefixes of each other, bytes >= 0x80, files, symlinks to directories, dangling '
-                'symlinks, fifos, DT_UNKNOWN answers, hidden entries, attic as directory/file/symlink) x 15 lock-file '
+                'symlinks, fifos, DT_UNKNOWN answers, hidden entries, attic as directory/file/symlink; boundary classes counted '
+                'as `class: ...`: numbers of listed directories around the growth steps of the vector, days with 9-1000 '
+                'invocations, suffixes at 2^31/2^32/2^63, names of 1/254/255 bytes, names byte-adjacent to a date/attic/tmp, '
+                'robsddir of 1/254-256/1023-1025/PATH_MAX-boundary bytes, lock file CRLF / > 4096 / > 65536 bytes / exactly '
+                '4096 bytes / cut to a prefix of another path) x 20 lock-file '
                 'states x 5 spellings of robsddir x 5 modes, each run with and without -B; non-trivial = at least two '
                 'directories listed and at least one entry not listed; distinct by content hash')
     n = n or ctx.budget(400, 20000)
     cases = load_corpus() + [gen_case(ctx.rng) for _ in range(n)]
     res.samples = cases[:3]
-    res.assumptions = ['roots of up to 22 entries in the correspondence (the theorems have no bound); names without newline; '
+    res.assumptions = ['roots of up to 22 entries in the ordinary stream, 15-17/31-33/63-65/255/256 listed directories and '
+                       '9-11/99-101/999/1000 invocations a day in the boundary stream (the theorems have no bound); robsddir '
+                       'spelled with 1, 254-256, 1023-1025 bytes and with root + "/" + longest name = PATH_MAX - 1 bytes (beyond '
+                       'that snprintf truncates and the kernel refuses the path: not modelled); names without newline; '
                        'keep-dir is always <robsddir>/attic because the configuration grammar does not accept another value '
                        '(the theorems hold for every keep-dir string)']
     impl = ctx.build_impl()
